@@ -4,6 +4,7 @@
 #include <dirent.h>
 #include "common/robust.hpp"
 #include "common/mc.hpp"
+#include <algorithm>
 #include "common/refx.hpp"
 #include "common/xgen.hpp"
 #include "common/xtok.hpp"
@@ -101,7 +102,7 @@ static int runProc(const std::vector<std::string> &argv, const std::string &cwd,
 }
 
 int main(int argc, char **argv) {
-  ctx = parse_args("C09", argc, argv, 240, 1700);
+  ctx = parse_args("C09", argc, argv, 900, 2400);
   g_out = ctx.scratch + "/c09.out";
   Report rep; rep.ctx = ctx;
   if (!ctx.replayPath.empty()) {
@@ -202,6 +203,8 @@ int main(int argc, char **argv) {
     fams.push_back({"sizes", [=] { return (uint64_t)Z->size(); }, [=](uint64_t i, std::string *d) { if (d) *d = (*Z)[i].first; return (*Z)[i].second; }, 64});
   }
 
+  // smallest families first: the hand lists and size sweeps are never the ones a deadline cuts off
+  std::stable_sort(fams.begin(), fams.end(), [](const Fam &a, const Fam &b) { return a.count() < b.count(); });
   for (auto &f : fams) {
     if (ctx.expired()) { rep.caps.push_back("family " + f.name + " not started (deadline)"); continue; }
     uint64_t n = f.count();
